@@ -3,7 +3,7 @@
    STUN-shaped or not): "unmodified" is identity of the token; packetio.Buffer is assumed FIFO. *)
 From Coq Require Import ZArith Bool List.
 From Ice Require Import Model.AgentTypes Model.AgentCore Model.AgentObs Model.AgentMonitors Gen.Consts
-     Proofs.AgentFrame Proofs.AgentC07 Proofs.AgentC06 Proofs.AgentC03Sel Proofs.AgentRem Proofs.AgentEnds Proofs.AgentSentStats Model.PairMonitor Model.TwoAgents Model.TwoAgentsData Proofs.TwoAgentsDataProofs Proofs.AgentC07Valid Proofs.TwoAgentsProofs Proofs.TwoAgentsReach Proofs.TwoAgentsDataReach.
+     Proofs.AgentFrame Proofs.AgentC07 Proofs.AgentC06 Proofs.AgentC03Sel Proofs.AgentRem Proofs.AgentEnds Proofs.AgentSentStats Proofs.AgentRecvStats Model.PairMonitor Model.TwoAgents Model.TwoAgentsData Proofs.TwoAgentsDataProofs Proofs.AgentC07Valid Proofs.TwoAgentsProofs Proofs.TwoAgentsReach Proofs.TwoAgentsDataReach.
 Import ListNotations.
 Local Open Scope Z_scope.
 
@@ -167,6 +167,47 @@ Module C07_example_selected_pair.
   Example counters_after : (s_bytes_sent (runs cfg s ops), map (fun p => (p_id p, p_bytes_sent p, p_pkts_sent p)) (s_checklist (runs cfg s ops))) = (150, [(1, 150, 2)]).
   Proof. vm_compute. reflexivity. Qed.
 End C07_example_selected_pair.
+
+(* ---- the receiving side of the pair counters.  [taken s] = bytes handed to Conn.Read so far + bytes waiting in the
+   reader's queue: what the connection has taken in.  One operation from a state whose selected pair is listed: the
+   intake and that pair's received bytes move by the same amount (the length of an accepted datagram, else 0), one
+   received packet per non-empty accepted datagram; payload lengths are not negative ([payload_ok]). *)
+Theorem C07_selected_pair_recv_step : forall cfg s o id p,
+  InvU s -> (match o with AddRemote _ => AgentRem.Rm s | _ => True end) -> payload_ok o ->
+  s_selected s = Some id -> In p (s_checklist s) -> p_id p = id ->
+  let s' := fst (step cfg s o) in
+  forall p', In p' (s_checklist s') -> p_id p' = id ->
+    taken s' - taken s = p_bytes_recv p' - p_bytes_recv p /\
+    p_pkts_recv p' - p_pkts_recv p = (if 0 <? taken s' - taken s then 1 else 0).
+Proof. exact step_recv_sync. Qed.
+Print Assumptions C07_selected_pair_recv_step.
+
+(* over any stretch of an admissible history during which one pair stays selected *)
+Theorem C07_selected_pair_recv_bytes_track : forall cfg ops s id p,
+  G s -> Rc s -> ops_ok cfg s ops -> Forall payload_ok ops -> sel_always cfg s ops id ->
+  In p (s_checklist s) -> p_id p = id ->
+  exists p', In p' (s_checklist (runs cfg s ops)) /\ p_id p' = id /\
+             taken (runs cfg s ops) - taken s = p_bytes_recv p' - p_bytes_recv p.
+Proof. exact selected_pair_recv_bytes_track. Qed.
+Print Assumptions C07_selected_pair_recv_bytes_track.
+
+(* non-vacuity: the state of C07_example_selected_pair; three datagrams arrive (100 bytes, empty, 50 bytes from the
+   peer; 70 bytes from a stranger are discarded), one is read in between *)
+Module C07_example_received.
+  Import C07_example_selected_pair.
+  Definition stranger := mkAddr false 3232235999 7000.
+  Definition rops := [InData 1 src (mkPayload 1 100 false); InData 1 src (mkPayload 2 0 false); Read;
+                      InData 1 stranger (mkPayload 3 70 false); InData 1 src (mkPayload 4 50 false)].
+  Example hypotheses_hold :
+    ops_ok cfg s rops /\ Forall payload_ok rops /\ sel_always cfg s rops 1.
+  Proof.
+    split; [cbn [ops_ok op_ok rops]; repeat split|]. split; [repeat constructor; cbn; discriminate|]. vm_compute. repeat split.
+  Qed.
+  Example counters_after :
+    (taken (runs cfg s rops) - taken s, s_bytes_recv (runs cfg s rops), map pl_id (s_buf (runs cfg s rops)),
+     map (fun p => (p_id p, p_bytes_recv p, p_pkts_recv p)) (s_checklist (runs cfg s rops))) = (150, 100, [2; 4], [(1, 150, 2)]).
+  Proof. vm_compute. reflexivity. Qed.
+End C07_example_received.
 
 (* "Application data travels only over validated pairs", for EVERY history: whatever datagram the next operation
    writes goes from the local socket of a listed, validated (Succeeded) pair to that pair's remote address. *)
